@@ -112,6 +112,9 @@ func (g *gen) str() []byte {
 		}
 		return b
 	default:
+		if r.Intn(20) == 0 {
+			return r.Bytes(250 + r.Intn(100))
+		}
 		return r.Bytes(r.Intn(10))
 	}
 }
@@ -195,7 +198,11 @@ func (g *gen) leaf(k int, nonFinite bool) *node {
 	case kByteArray, kIntArray, kLongArray:
 		ek := map[int]int{kByteArray: kByte, kIntArray: kInt, kLongArray: kLong}[k]
 		n := &node{k: k}
-		for c := g.r.Pick(0, 0, 1, 2, 3, 7); c > 0; c-- {
+		c := g.r.Pick(0, 0, 1, 2, 3, 7)
+		if g.r.Intn(40) == 0 {
+			c = 250 + g.r.Intn(20) // counts that do not fit one byte
+		}
+		for ; c > 0; c-- {
 			n.arr = append(n.arr, g.intOf(ek))
 		}
 		return n
@@ -226,6 +233,9 @@ func (g *gen) tree(depth int, k int, nonFinite bool) *node {
 			return n
 		}
 		ek := 1 + r.Intn(12)
+		if ek <= 6 && r.Intn(30) == 0 {
+			cnt = 250 + r.Intn(20)
+		}
 		for i := 0; i < cnt; i++ {
 			n.kids = append(n.kids, g.tree(depth-1, ek, nonFinite))
 		}
@@ -798,6 +808,26 @@ func hostile(o *hx.Out, cat string, text []byte) {
 	}
 }
 
+// (B') float-free text on which the reading of L is unambiguous (in-range / out-of-range integers,
+// homogeneous / heterogeneous lists, typed-array element types): the spec parser is the reference.
+func specCase(o *hx.Out, cat string, text string, wantOK bool) {
+	r := marshalText([]byte(text))
+	impl := "q err"
+	if r.panicked != "" {
+		impl = "q panic"
+	} else if r.err == nil {
+		impl = fmt.Sprintf("q ok %s tt=%d", hx.Hex(r.out), r.tt)
+	}
+	o.Case(cat, true, "q "+hx.Hex([]byte(text)), impl)
+	if r.panicked != "" {
+		o.Fail("C04.parse.panic", "text=%s panic=%s", short([]byte(text)), r.panicked)
+	} else if wantOK && (r.err != nil || !wellFormed(r.out)) {
+		o.Fail("C04.parse.valid-rejected", "text=%s err=%v out=%s", short([]byte(text)), r.err, hx.Hex(r.out))
+	} else if !wantOK && r.err == nil {
+		o.Fail("C04.parse.invalid-accepted", "text=%s out=%s", short([]byte(text)), hx.Hex(r.out))
+	}
+}
+
 // must be rejected
 func mustReject(o *hx.Out, class, cat string, text []byte) {
 	o.Eval(cat, true, "r "+hx.Hex(text))
@@ -840,7 +870,7 @@ func main() {
 			writerCase(o, "writer.int-bounds", &node{k: k, i: v})
 		}
 	}
-	for i, n := 0, o.N(2500, 12); i < n; i++ {
+	for i, n := 0, o.N(6000, 12); i < n; i++ {
 		writerCase(o, "writer.random", g.tree(r.Intn(5), 0, r.Intn(8) == 0))
 	}
 
@@ -861,10 +891,56 @@ func main() {
 			parseCase(o, "parse.int-bounds", &node{k: kList, kids: []*node{{k: k, i: v}, {k: k, i: v}}}, r.Bool())
 		}
 	}
-	for i, n := 0, o.N(3000, 12); i < n; i++ {
+	for i, n := 0, o.N(8000, 12); i < n; i++ {
 		t := parseCase(o, "parse.random", g.tree(r.Intn(5), 0, false), r.Intn(4) == 0)
 		if len(t) < 200 {
 			corpus = append(corpus, t)
+		}
+	}
+
+	// (B') integer ranges at every suffix, in every position; list homogeneity; typed-array element types
+	type lim struct {
+		sfx    []string
+		lo, hi string // first values outside the range
+		min    string
+		max    string
+		arr    string
+	}
+	for _, l := range []lim{
+		{[]string{"b", "B"}, "-129", "128", "-128", "127", "B"},
+		{[]string{"s", "S"}, "-32769", "32768", "-32768", "32767", ""},
+		{[]string{"", "i", "I"}, "-2147483649", "2147483648", "-2147483648", "2147483647", "I"},
+		{[]string{"l", "L"}, "-9223372036854775809", "9223372036854775808", "-9223372036854775808", "9223372036854775807", "L"},
+	} {
+		for _, sf := range l.sfx {
+			for _, c := range []struct {
+				v  string
+				ok bool
+			}{{l.lo, false}, {l.hi, false}, {"+" + l.hi, false}, {l.min, true}, {l.max, true}, {"+" + l.max, true}, {l.hi + "0", false}, {"99999999999999999999", false}, {"-99999999999999999999", false}, {"-0", true}, {"+0", true}} {
+				lit := c.v + sf
+				specCase(o, "spec.int-range", lit, c.ok)
+				specCase(o, "spec.int-range", " [ "+lit+" ] ", c.ok)
+				specCase(o, "spec.int-range", "["+l.max+sf+","+lit+"]", c.ok)
+				specCase(o, "spec.int-range", "{a:"+lit+",\"b c\":["+lit+"]}", c.ok)
+				if l.arr != "" {
+					specCase(o, "spec.int-range", "["+l.arr+";"+lit+"]", c.ok)
+					specCase(o, "spec.int-range", "{k:["+l.arr+"; 0"+sf+" , "+lit+" ]}", c.ok)
+				}
+			}
+		}
+	}
+	vals := []string{"1b", "1s", "1", "1L", "a", "\"a\"", "'1'", "{}", "{a:1}", "[]", "[1]", "[a]", "[B;]", "[B;1b]", "[I;]", "[I;1]", "[L;]", "[L;1L]", "[[]]", "1I"}
+	kindOf := []int{1, 2, 3, 4, 8, 8, 8, 10, 10, 9, 9, 9, 7, 7, 11, 11, 12, 12, 9, 3}
+	for i, a := range vals {
+		for j, b := range vals {
+			same := kindOf[i] == kindOf[j]
+			specCase(o, "spec.list-homogeneity", "["+a+","+b+"]", same)
+			specCase(o, "spec.list-homogeneity", "{x:[ "+a+" , "+b+" ,"+a+"]}", same)
+			specCase(o, "spec.list-homogeneity", "[["+a+"],["+b+"]]", true)
+		}
+		for k, letter := range []string{"B", "I", "L"} {
+			specCase(o, "spec.array-element", "["+letter+";"+a+"]", kindOf[i] == []int{1, 3, 4}[k])
+			specCase(o, "spec.array-element", "["+letter+";"+[]string{"1b", "1", "1L"}[k]+","+a+"]", kindOf[i] == []int{1, 3, 4}[k])
 		}
 	}
 
@@ -874,6 +950,31 @@ func main() {
 		hostile(o, "hostile.fixed", []byte("{k:"+s+"}"))
 		hostile(o, "hostile.fixed", []byte("["+s+"]"))
 		hostile(o, "hostile.fixed", []byte("[ "+s+" , "+s+" ]"))
+	}
+	// bare keys: every reading of SNBT takes an unquoted key as its raw characters, number-like or not
+	for i, n := 0, o.N(600, 10); i < n; i++ {
+		var tok []byte
+		if i < len(strPool) {
+			tok = []byte(strPool[i])
+		} else {
+			tok = g.str()
+		}
+		ok := len(tok) > 0 && len(tok) < 200
+		for _, c := range tok {
+			ok = ok && isBareByte(c)
+		}
+		if !ok {
+			continue
+		}
+		text := []byte("{" + string(tok) + ":1b}")
+		o.Eval("hostile.bare-key", true, "k "+hx.Hex(text))
+		r := marshalText(text)
+		want := append(append([]byte{10, 0, 0, 1, 0, byte(len(tok))}, tok...), 1, 0)
+		if r.panicked != "" {
+			o.Fail("C04.parse.panic", "text=%s panic=%s", short(text), r.panicked)
+		} else if r.err == nil && !bytes.Equal(r.out, want) {
+			o.Fail("C04.parse.bare-key", "text=%s out=%s want=%s", short(text), hx.Hex(r.out), hx.Hex(want))
+		}
 	}
 	// truncation: a text of L whose root is a container or a quoted string, cut anywhere before its last
 	// closing character, is not a value; a complete value followed by a space and anything else is not a value
@@ -892,7 +993,7 @@ func main() {
 				mustReject(o, "C04.parse.truncated-accepted", "hostile.truncated", tt[:cut])
 			}
 		}
-		if i%3 == 0 {
+		if i%3 == 0 && i < 3000 {
 			for _, tail := range []string{" x", " 1", "]", "}", " ,", " {}", "\n[]", ":", " \"\""} {
 				mustReject(o, "C04.parse.trailing-accepted", "hostile.trailing", append(append([]byte{}, t...), tail...))
 			}
@@ -900,7 +1001,7 @@ func main() {
 	}
 	// mutations of valid texts
 	const alphabet = "{}[],:;\"'\\ \t\n0123456789+-.eEbBsSlLfFdDiIaxBIL_tru"
-	for i, n := 0, o.N(12000, 15); i < n; i++ {
+	for i, n := 0, o.N(40000, 15); i < n; i++ {
 		src := corpus[r.Intn(len(corpus))]
 		t := append([]byte{}, src...)
 		for m := 1 + r.Intn(3); m > 0 && len(t) > 0; m-- {
@@ -924,7 +1025,7 @@ func main() {
 		}
 		hostile(o, "hostile.mutated", t)
 	}
-	for i, n := 0, o.N(6000, 15); i < n; i++ {
+	for i, n := 0, o.N(20000, 15); i < n; i++ {
 		l := r.Intn(12)
 		t := make([]byte, l)
 		for j := range t {
